@@ -325,6 +325,15 @@ class SInt(Sym):
             return o << k
         return o * ctx().pow2(self)
 
+    def bit_length(self):
+        """int.bit_length() for |n| < 2^80 (entailed by the path, else unsupported)"""
+        c = ctx()
+        lim = 1 << 80
+        if c._feasible(z3.Not(z3.And(self.t > -lim, self.t < lim))):
+            raise Unsupported("int.bit_length() of a symbolic int not known to be below 2^80")
+        a = z3.If(self.t >= 0, self.t, -self.t)
+        return SInt(z3.Sum([z3.If(a >= (1 << i), 1, 0) for i in range(80)]))
+
     def __rshift__(self, o):
         if isinstance(o, SInt):
             k = ctx().concretize(o)
